@@ -10,6 +10,8 @@ trap 'rm -rf "$TMP"' EXIT
 mkdir -p "$TMP/repo" && cp -r /repo/src "$TMP/repo/src" || exit 2
 ( cd "$TMP/repo" && patch -p1 --quiet < "$PATCH" ) || { echo "PATCH-FAILED $PATCH"; exit 2; }
 find "$TMP/repo" -name '*.orig' -delete
+# sensitivity runs stop at the first violation unless MUT_FULL=1 (then every root cause is searched and shrunk)
+[ -n "$MUT_FULL" ] || export VP_FAILFAST_FLAG="$TMP/flag"
 VP_REPO_SRC="$TMP/repo/src" VP_OUT="$TMP/out" "$DIR/check" "$ID" "$@" | sed "s#$TMP#<scratch>#g" | grep -v "^  finding" | head -20
 rc=${PIPESTATUS[0]}
 echo "mutant=$(basename "$PATCH") check=$ID exit=$rc"
